@@ -41,6 +41,8 @@ def run(ctx):
         ctx.count("functions_analysed", sum(1 for b in crate.bodies if b.key.startswith("resolvo::snapshot::")))
         id_kinds(ctx, crate, crs, tag)
         capture(ctx, crate, crs, tag)
+        ctx.guard("faithful-copy" + tag, faithful_copy, ctx, crate, crs, tag)
+        ctx.guard("ids-followed" + tag, ids_followed, ctx, crate, crs, tag)
         order(ctx, crate, crs, tag)
         union_order(ctx, crate, tag)
         provider_siblings(ctx, crate, crs, tag)
@@ -119,7 +121,7 @@ def id_kinds(ctx, crate, crs, tag):
     helper = SPP + "first_additional_version_set_id"
     n = 0
     bodies = [b for b in crate.bodies if b.d.get("impl_adt") == SP and b.kind in ("AssocFn", "Closure")]
-    ctx.floor("id-kinds" + tag, "SnapshotProvider methods", len(bodies), 10)
+    ctx.floor("id-kinds" + tag, "SnapshotProvider methods", len(bodies), 8)
     for k, v in sorted(e.calls.items()):
         if k.startswith(SPP):
             ctx.ob("id-kinds" + tag, k, "helper-returns-END", v == END, "", "summary: %s" % (v,))
@@ -171,6 +173,87 @@ def id_kinds(ctx, crate, crs, tag):
 
 
 # ---------------------------------------------------------------------------------------------
+LOSSY = {"filter", "filter_map", "skip", "take", "step_by", "skip_while", "take_while", "dedup", "dedup_by_key", "unique", "retain",
+         "truncate", "rev", "nth", "last", "first", "sort", "sort_by", "sort_by_key", "sort_unstable", "sort_unstable_by_key", "zip",
+         "pop", "remove", "swap_remove", "drain", "split_off"}
+TABLES = ("packages", "version_set_unions", "solvables", "version_sets", "strings")
+
+
+def faithful_copy(ctx, crate, crs, tag):
+    """What the capture stores in the snapshot tables is the provider's answer as given: the backward slice of every value
+    inserted into a `result.<table>` contains no lossy or re-ordering iterator/vector operation."""
+    R = "faithful-copy" + tag
+    b = body_by_key(crate, CAPTURE, coroutine=True)
+    if b is None:
+        return
+    n = 0
+    seen_tables = set()
+    for i, t in b.calls_to(M + "::insert"):
+        r, _ = q.origin_thru(b, t["args"][0])
+        names = [e.get("n") for e in r.get("proj", []) if isinstance(e, dict) and "f" in e]
+        tbl = [x for x in names if x in TABLES]
+        if not tbl:
+            continue
+        n += 1
+        seen_tables.add(tbl[-1])
+        lv = set()
+        for a in t["args"][2:]:
+            lv |= q.leaves(b, a)
+        bad = sorted(x[5:] for x in lv if x.startswith("call:") and x[5:] in LOSSY)
+        ctx.ob(R, b.key, "stored-as-given:%s" % tbl[-1], not bad, where_call(b, i),
+               "the value stored in %s is built from the provider's answer without dropping or re-ordering elements%s" %
+               (tbl[-1], (" (uses %s)" % ", ".join(bad)) if bad else ""))
+    ctx.ob(R, b.key, "all-tables-written", seen_tables >= set(TABLES) - {"strings"}, b.loc(),
+           "tables written by the capture: %s" % sorted(seen_tables))
+
+
+ID_TYPES = ("SolvableId", "StringId", "VersionSetId", "NameId", "VersionSetUnionId")
+
+
+def ids_followed(ctx, crate, crs, tag):
+    """Every id the capture learns from the provider (a named variable of an id type that did not come out of the work queue) is
+    followed: it flows into an `Element::X(id)` that is offered to the work queue, or is the key under which a table entry is
+    stored.  An id that is looked at and dropped leaves a dangling reference in the snapshot."""
+    R = "ids-followed" + tag
+    b = body_by_key(crate, CAPTURE, coroutine=True)
+    if b is None:
+        return
+    reached = set()
+    for i, j, s in b.assigns():
+        r = s["r"]
+        if r["k"] == "agg" and str(r.get("adt", "")).endswith("::Element"):
+            for o in r["ops"]:
+                reached |= q.slice_locals(b, o)
+    for i, t in b.calls():
+        f = t.get("f")
+        if f and f["name"] in ("insert", "get", "get_mut", "index", "index_mut") and len(t["args"]) > 1 and \
+                any(k.startswith(M + "::") for k in callee_keys(f)):
+            reached |= q.slice_locals(b, t["args"][1])
+    n = 0
+    for l, d in enumerate(b.locals):
+        ty = d.get("ty", "").lstrip("&").replace("mut ", "")
+        if not d.get("name") or not d.get("user") or not ty.startswith("resolvo::internal::id::") or ty.split("::")[-1] not in ID_TYPES:
+            continue
+        # ids taken off the work queue are being processed, not discovered
+        o = b.origin({"k": "copy", "p": {"l": l}})
+        from_queue = any(isinstance(e, dict) and str(e.get("of", "")).endswith("::Element") for e in o.get("proj", []))
+        if not from_queue:
+            src = q.slice_locals(b, {"k": "copy", "p": {"l": l}})
+            from_queue = False
+            for x in src:
+                ox = b.origin({"k": "copy", "p": {"l": x}})
+                if any(isinstance(e, dict) and str(e.get("of", "")).endswith("::Element") for e in ox.get("proj", [])):
+                    pass
+        if from_queue:
+            continue
+        if not b.defs_of(l) and not any(True for _ in q.uses_of_local(b, l)):
+            continue
+        n += 1
+        ctx.ob(R, b.key, "followed:%s:%s" % (d["name"], ty.split("::")[-1]), l in reached, "%s:%s" % (b.file, b.line),
+               "the %s `%s` learnt from the provider is queued for capture or used as a table key" % (ty.split("::")[-1], d["name"]))
+    ctx.floor(R, "discovered id variables", n, 8)
+
+
 def capture(ctx, crate, crs, tag):
     b = body_by_key(crate, CAPTURE, coroutine=True)
     if b is None:
@@ -180,8 +263,8 @@ def capture(ctx, crate, crs, tag):
     pushes = [(i, t) for i, t in b.calls_to("std::collections::VecDeque::push_back")]
     seens = [(i, t) for i, t in b.calls_to("std::collections::HashSet::insert")
              if "Element" in (t.get("arg_tys") or ["", ""])[1]]
-    ctx.floor("capture-pairing" + tag, "queue.push_back sites", len(pushes), 10)
-    ctx.floor("capture-pairing" + tag, "seen.insert sites", len(seens), 10)
+    ctx.floor("capture-pairing" + tag, "queue.push_back sites", len(pushes), 7)
+    ctx.floor("capture-pairing" + tag, "seen.insert sites", len(seens), 7)
 
     def elem(term):
         d = b.origin(term["args"][1])
